@@ -58,9 +58,27 @@ func Guard(d time.Duration, fn func()) Outcome {
 	case o := <-done:
 		return o
 	case <-tm.C:
+	}
+	// Not back within the deadline. A call that is blocked for good stays blocked; a process that was merely stalled (a machine
+	// busy enough to freeze two test processes for 20 s at the same moment has been observed) returns once it runs again.
+	// Twice the deadline more decides which of the two it is: "never blocks indefinitely" is not violated by a call that came back.
+	grace := time.NewTimer(2 * d)
+	defer grace.Stop()
+	select {
+	case o := <-done:
+		slowCalls.Add(1)
+		fmt.Fprintf(os.Stderr, "VERIF-SLOW a guarded call returned only after its %v deadline (machine stalled?)\n", d)
+
+		return o
+	case <-grace.C:
 		return Outcome{TimedOut: true}
 	}
 }
+
+var slowCalls atomic.Int64
+
+// SlowCalls counts guarded calls that came back after their deadline but within the grace period.
+func SlowCalls() int64 { return slowCalls.Load() }
 
 // Recover runs fn in the calling goroutine and converts a panic into an Outcome.
 func Recover(fn func()) (o Outcome) {
